@@ -97,7 +97,11 @@ def watch_findall(yp):
             return
         template, start = ctx
         seen = set()
+        n = 0
         for r in orig_call(goal, *args):
+            n += 1
+            if n > CAP:
+                yp._verif_findall_big = True      # like a query with more than CAP answers: too large for the eagerly evaluated model
             try:
                 inner = {v._verif_serial for v in _term_variables(engine, template, []) if getattr(v, '_verif_serial', 0) > start}
             except RecursionError:
@@ -150,6 +154,7 @@ def run_queries(yp, case, T_factory=None):
         g = None
         yp._verif_findall_inner = False
         yp._verif_findall_shared = False
+        yp._verif_findall_big = False
         # per-query search budget: the enclosing per-case timer of the runner is suspended and re-armed afterwards
         outer_left, _ = signal.getitimer(signal.ITIMER_REAL)
         outer_handler = signal.signal(signal.SIGALRM, _budget_alarm)
@@ -187,7 +192,8 @@ def run_queries(yp, case, T_factory=None):
         leftover = [i for i in range(nq) if T.vars[i]._is_bound]
         out.append({'answers': canon_answers(answers), 'count': n, 'end': end, 'leftover': leftover,
                     'findall_inner': bool(getattr(yp, '_verif_findall_inner', False)),
-                    'findall_shared': bool(getattr(yp, '_verif_findall_shared', False))})
+                    'findall_shared': bool(getattr(yp, '_verif_findall_shared', False)),
+                    'findall_big': bool(getattr(yp, '_verif_findall_big', False))})
     return out
 
 def impl(case):
@@ -209,7 +215,7 @@ def compared_queries(case, io):
     within the budget and the answer cap (the model is evaluated eagerly inside Coq)"""
     if not isinstance(io, dict) or 'queries' not in io:
         return list(range(len(case['queries'])))
-    return [i for i, iq in enumerate(io['queries']) if iq['end'] not in ('cap', 'budget') and not iq.get('findall_shared')]
+    return [i for i, iq in enumerate(io['queries']) if iq['end'] not in ('cap', 'budget') and not iq.get('findall_shared') and not iq.get('findall_big')]
 
 def model_expr(case, io=None):
     """the model is given the same source TEXT as the implementation: its own front end (Lang/Front.v) reads it"""
